@@ -1,6 +1,7 @@
 """C09 - the front end is total (clauses: the panic-capable sites reachable from lexing, parsing
 and formatting are an inventoried set; every Parser::take::<T> is preceded on every path by a test
-that the next terminal's kind is T::KIND; second look-ahead only after a non-EOF test)."""
+that the next terminal's kind is T::KIND; second look-ahead only after a non-EOF test; the parser's
+loops and recursion make progress on every terminal kind)."""
 import os
 import re
 from collections import Counter, defaultdict, deque
@@ -20,7 +21,13 @@ EXPLANATION = (
     "peek().kind, invalidated by any call that may consume a terminal, propagated into callees from their call "
     "sites); at every Parser::take::<T> the set must be exactly {T::KIND}, which is what the function asserts. "
     "(R9.3) every use of the second look-ahead terminal is preceded by a test that the next terminal is not "
-    "end-of-file. Termination of the recovery loops, stack depth and totality of later phases are not decided.")
+    "end-of-file. (R9.4-R9.6) Progress of the parser: an abstract interpreter runs the prefix of every routine that "
+    "executes on an unchanged look-ahead, for each of the terminal kinds and each calling context (generic arguments, "
+    "element parsers and should_stop closures handed in), resolving every test of the look-ahead kind exactly; it shows "
+    "that a list element parser never returns Ok (or Err(DoNothing) to parse_list) without having consumed a token, that "
+    "no loop of the parser can go round without consuming a token (at end of file: without leaving the loop), and that no "
+    "routine re-enters itself before a token was consumed. Stack depth on nested input, termination of the lexer's "
+    "character loops and of the formatter, and totality of later phases are not decided.")
 ASSUMPTIONS = ["Terminal::KIND of a terminal type named TerminalX is SyntaxKind::TerminalX (read from the facts)",
                "calls that take `&mut Parser` and are not in the non-consuming list may consume a terminal",
                "class U inventory rows are not individually triaged"]
@@ -387,7 +394,90 @@ def run(ctx):
                 ok = st is not TOP and "TerminalEndOfFile" not in st
                 ctx.ob("R9.3", "%s|%s" % (fn_key(p), c.name()), ok,
                        "second look-ahead used when the next terminal is %s" % ("possibly end-of-file (unknown)" if st is TOP else sorted(st)[:4]), c.where())
+    _progress(ctx, names)
     _controls(ctx, F, names, summaries, pfns)
+
+
+def _progress(ctx, names):
+    """R9.4-R9.6: the recovery loops of the parser make progress (abstract interpretation of the prefix of every
+    routine that runs on an unchanged look-ahead, for every terminal kind and calling context)."""
+    from . import parser_ai as A
+    from .guards import natural_loops
+    F = ctx.load(["cairo_lang_parser", "cairo_lang_syntax"])
+    TK = [n for n in names if n.startswith("Terminal")]
+    ctx.floor("terminal kinds", len(TK), 80)
+    ai = A.ParserAI(F, names)
+    pf = {p: f for p, f in F.fns.items() if f.body and f.crate == "cairo_lang_parser"}
+
+    # R9.4 a list element parser never reports success (or "already skipped") without having consumed a token
+    elems = A.element_parsers(F, pf)
+    ctx.floor("list element parsers handed to the list routines", len(elems), 18)
+    for e in sorted(elems):
+        users = sorted(set(u or "?" for _, u in elems[e]))
+        plain_list = any(u in ("parse_list", "parse_attributed_list") for u in users)
+        ctx.analysed(F.fns[e])
+        bad = []
+        for k in TK:
+            for rav, consumed in ai.outcomes(e, k):
+                if consumed:
+                    continue
+                trail = " > ".join(ai.witness.get(((e, k, (), ()), (rav, consumed)), ())[:8])
+                if rav is None or rav[0] != "v":
+                    bad.append("%s: result not determined (%s)" % (k, trail))
+                elif rav[1] == 0:
+                    bad.append("%s: returns Ok without consuming a token (%s)" % (k, trail))
+                elif rav[1] == 1 and (len(rav) < 3 or rav[2] is None):
+                    bad.append("%s: returns an undetermined failure without consuming (%s)" % (k, trail))
+                elif rav[1] == 1 and rav[2][1] == 1 and plain_list:
+                    bad.append("%s: returns Err(DoNothing) without consuming a token; parse_list then retries on the same token (%s)" % (k, trail))
+        ctx.ob("R9.4", "element:%s" % fn_key(e), not bad,
+               "for each of the %d terminal kinds the element parser (used by %s) consumes a token whenever it returns Ok%s" % (
+                   len(TK), "/".join(users), " or Err(DoNothing)" if plain_list else "") if not bad else
+               "the list loop that calls this element parser does not advance: " + "; ".join(bad[:4]), elems[e][0][0])
+
+    # R9.5 no loop of the parser can go round without consuming a token (per calling context, per kind)
+    contexts, rounds = A.compute_contexts(F, pf)
+    n_loops = n_runs = 0
+    for p, f in sorted(pf.items()):
+        loops = natural_loops(f)
+        items = loops.items() if isinstance(loops, dict) else loops
+        ordinal = 0
+        for h, body in sorted(items):
+            if not any(A.takes_parser(f, c) or c.callee.get("r") == "ptr" for c in f.calls() if c.bb in body):
+                continue
+            ordinal += 1
+            n_loops += 1
+            ctx.analysed(f)
+            if not contexts[p]:
+                ctx.ob("R9.5", "loop:%s#%d|no-context" % (fn_key(p), ordinal), False,
+                       "the routine has a token loop but no calling context could be established", f.where())
+                continue
+            for cx in sorted(contexts[p], key=str):
+                before = set(ai.cycles)
+                for k in TK:
+                    ai.from_block(f, h, k, cx[0], cx[1])
+                    n_runs += 1
+                new = [(key, ai.cycles[key]) for key in ai.cycles if key not in before]
+                ct = A.ctx_text(cx)
+                ctx.ob("R9.5", "loop:%s#%d|%s" % (fn_key(p), ordinal, ct), not new,
+                       "every way round the loop consumes a token (or, at end of file, leaves the loop) for each of the %d terminal kinds" % len(TK) if not new else
+                       "the loop can go round without consuming a token: " + "; ".join(
+                           "next terminal %s, in %s line %s via %s" % (key[1], last_seg(key[0]), v[0], " > ".join(v[2][-6:])) for key, v in new[:3]),
+                       f.where(A._line(f, h)))
+    ctx.floor("token loops of the parser", n_loops, 8)
+
+    # R9.6 no routine re-enters itself on an unchanged look-ahead (unbounded recursion)
+    ctx.ob("R9.6", "recursion-without-consumption", not ai.recursions,
+           "no routine is re-entered with the same next terminal and context before a token was consumed (%d routine/kind pairs interpreted)" % len(ai.memo)
+           if not ai.recursions else "re-entered without consuming: " + "; ".join("%s on %s: %s" % (last_seg(k[0]), k[1], v) for k, v in list(ai.recursions.items())[:4]), "")
+    ctx.ob("R9.5", "interpreter:state-limit", not ai.limits, "no exploration hit the state limit" if not ai.limits else
+           "state limit hit in %s" % sorted(last_seg(k[0]) for k in ai.limits)[:5], "")
+    for (path, why), where in sorted(ai.unknown_calls.items()):
+        ctx.ob("R9.5", "interpreter:unknown-call:%s" % fn_key(path), False,
+               "a call the interpreter cannot look into (%s) is reached on an unchanged look-ahead; it is assumed not to consume" % why, where)
+    ctx.notes.append("progress interpreter: %d (routine, kind, context) summaries, %d loop explorations, %d states; contexts fixpoint in %d rounds" % (
+        len(ai.memo), n_runs, ai.n_explored, rounds))
+    ctx._c09_ai = (ai, F, pf, contexts)
 
 
 def _controls(ctx, F, names, summaries, pfns):
@@ -401,3 +491,29 @@ def _controls(ctx, F, names, summaries, pfns):
             if c.name() == "take":
                 ok = at.get(c.bb) == {"KIND:Terminal"}
     ctx.control("take in try_parse_token is justified only by its own T::KIND test", ok)
+    # progress: parse_list whose recovery reports instead of skipping must be seen to spin
+    import copy
+    from . import parser_ai as A
+    from .lib import Fn
+    from .guards import natural_loops
+    ai, F2, pf, contexts = ctx._c09_ai
+    pl = [q for q in pf if q.endswith("::parse_list")]
+    fired = False
+    if pl:
+        f = pf[pl[0]]
+        d = copy.deepcopy(f.d)
+        hit = 0
+        for bl in d["body"]["blocks"]:
+            t = bl["t"]
+            if t[0] == "call" and t[1].get("path", "").endswith("::skip_token"):
+                t[1]["path"] = t[1]["path"].replace("::skip_token", "::add_diagnostic")
+                hit += 1
+        m = Fn(d, f.crate)
+        ai2 = A.ParserAI(F2, names)
+        loops = natural_loops(m)
+        for h in (loops.keys() if isinstance(loops, dict) else [x for x, _ in loops]):
+            for cx in contexts[pl[0]]:
+                for k in [n for n in names if n.startswith("Terminal")]:
+                    ai2.from_block(m, h, k, cx[0], cx[1])
+        fired = hit > 0 and bool(ai2.cycles)
+    ctx.control("parse_list that reports instead of skipping is seen to spin", fired)
